@@ -30,7 +30,7 @@ CASE_TIMEOUT = 30
 RULE = (
     "sampled product over set/unset time, grid, units, mask, two extra meta keys on producer and consumers x grid "
     "kinds (NoGrid with dims/shapes, uniform/rectilinear layouts compatible-but-different vs incompatible, points vs "
-    "cells, 1-d, unstructured) x unit pairs (equal, convertible, incompatible, unset) x mask kinds (FLEX, NONE, nomask, "
+    "cells incl. an unstructured mesh with as many cells as nodes (equal data shape, only the location differs), 1-d, unstructured) x unit pairs (equal, convertible, incompatible, unset) x mask kinds (FLEX, NONE, nomask, "
     "unset, explicit equal / equal-after-layout / different / all-false / wrong shape) x fan-out 1-3 in every consumer "
     "order x adapter chains of length 0-2 from Scale, AvgOverTime, SumOverTime(per_time or not), RegridNearest(in/out "
     "grid, out mask given or not), run through bare Output/Adapter/Input objects (incl. an exchange before push_info) "
@@ -89,6 +89,21 @@ def _grid_ctor(name):
     if name == "X2":
         return fm.UnstructuredGrid(points=[[0, 0], [2, 0], [0, 2], [2, 2]], cells=[[0, 1, 2], [1, 3, 2]],
                                    cell_types=[fm.CellType.TRI] * 2)
+    if name in ("T43c", "T43p"):
+        # 4x3 nodes, every quad split into two triangles: 12 nodes AND 12 cells, so data on cells and data on
+        # nodes have the same shape; only the data location tells the two grids apart
+        nx, ny = 4, 3
+        pts = [[float(i), float(j)] for i in range(nx) for j in range(ny)]
+        cells = []
+        for i in range(nx - 1):
+            for j in range(ny - 1):
+                a, b, c, d = i * ny + j, (i + 1) * ny + j, (i + 1) * ny + j + 1, i * ny + j + 1
+                cells += [[a, b, c], [a, c, d]]
+        return fm.UnstructuredGrid(points=pts, cells=cells, cell_types=[fm.CellType.TRI] * len(cells),
+                                   data_location=fm.Location.CELLS if name == "T43c" else fm.Location.POINTS)
+    if name == "Xp":
+        return fm.UnstructuredGrid(points=[[0, 0], [1, 0], [0, 1], [1, 1]], cells=[[0, 1, 2], [1, 3, 2]],
+                                   cell_types=[fm.CellType.TRI] * 2, data_location=fm.Location.POINTS)
     raise KeyError(name)
 
 
@@ -111,12 +126,20 @@ GSPEC = {
     "U4f": _g(1, 12, 0, 1, False, [False], [3]),
     "X": _g(2, 20, 0, 2, False, [], [2]),
     "X2": _g(2, 21, 0, 2, False, [], [2]),
+    "Xp": _g(2, 20, 1, 2, False, [], [4]),
+    "T43c": _g(2, 22, 0, 2, False, [], [12]),
+    "T43p": _g(2, 22, 1, 2, False, [], [12]),
 }
-REAL_GRIDS = ["U43", "U43f", "U43r", "U43rf", "R43", "U43p", "U53", "U4", "U4f", "X", "X2"]  # have .crs
+# pairs that describe the same mesh and differ ONLY in the data location (T43: even the data shape is equal)
+LOCATION_PAIRS = [("T43c", "T43p"), ("T43p", "T43c"), ("X", "Xp"), ("Xp", "X"), ("U43", "U43p"), ("U43p", "U43")]
+REAL_GRIDS = ["U43", "U43f", "U43r", "U43rf", "R43", "U43p", "U53", "U4", "U4f", "X", "X2", "Xp", "T43c", "T43p"]  # have .crs
 SAME_GEOM = {
     "U43": ["U43", "U43f", "U43r", "U43rf", "R43"], "U43f": ["U43", "U43f", "U43r", "U43rf", "R43"],
     "U43r": ["U43", "U43f", "U43r", "U43rf", "R43"], "U43rf": ["U43", "U43f", "U43r", "U43rf", "R43"],
     "R43": ["U43", "U43f", "U43r", "U43rf", "R43"], "U4": ["U4", "U4f"], "U4f": ["U4", "U4f"],
+    # same mesh; the second entry has another data location (a conflict), drawn now and then
+    "T43c": ["T43c", "T43c", "T43c", "T43p"], "T43p": ["T43p", "T43p", "T43p", "T43c"],
+    "X": ["X", "X", "X", "Xp"], "Xp": ["Xp", "Xp", "Xp", "X"],
 }
 
 # units: name -> ([length, time] exponents, factor to base units)
@@ -993,6 +1016,10 @@ CORPUS = [
     _case(_I(time=None), [(_I(time=5), [])], static=True),
     _case(_I(time=None), [(_I(time=5), [["scale"]]), (_I(time=None), [])], static=True),
     _case(_I(time=7), [(_I(time=5), []), (_I(time=None), [])], static=True),
+    # same mesh, same data shape, different data location (12 cells / 12 nodes): must be refused
+    _case(_I(grid="T43c"), [(_I(grid="T43p"), [])]),
+    _case(_I(grid="T43p"), [(_I(grid="T43c"), [["scale"]])], mode="comp"),
+    _case(_I(grid="T43c"), [(_I(grid="T43c"), []), (_I(grid=None), [["avg"]])], mode="comp", prod_pos=1),
     # producer info never pushed
     _case(None, [(_I(), [])]),
 ]
@@ -1031,6 +1058,18 @@ def generate(rng, tier):
                     o = _I(grid=og, mask=_mask_kind(om, og))
                     c = _I(grid=cg, mask=_mask_kind(cm, cg))
                     cases.append(_case(o, [(c, [["scale"]] if k % 2 else [])]))
+    # systematic part: grids of one mesh that differ only in the data location, both directions, direct / behind
+    # an adapter / with a second (compatible) consumer in both orders, bare objects and Composition.connect()
+    for (a, b) in LOCATION_PAIRS:
+        for chain in ([], [["scale"]], [["avg"]], [["sum", False]]):
+            for mode in ("bare", "comp"):
+                cases.append(_case(_I(grid=a), [(_I(grid=b), chain)], mode=mode, prod_pos=len(chain) % 2))
+                cases.append(_case(_I(grid=a), [(_I(grid=a, units="km"), []), (_I(grid=b), chain)], mode=mode,
+                                   order=[0, 1] if chain else [1, 0]))
+        cases.append(_case(_I(grid=None), [(_I(grid=a), []), (_I(grid=b), [])]))          # first requester decides
+        cases.append(_case(_I(grid=a), [(_I(grid=None), [["regrid", None, b, None]])]))   # regrid onto the other location: fine
+        for down in (False, True):
+            cases.append({"mode": "accepts", "self": _I(grid=a), "inc": _I(grid=b), "down": down})
     for i in range(n):
         cases.append(_gen_case(rng, i))
     # the public Info.accepts in both directions on random pairs (incl. pairs no exchange can reach)
